@@ -2,7 +2,6 @@
 
 package saml
 
-
 // Harness_C09_inflate: the bounding reader as its users get it (newSaferFlateReader over a deflate stream
 // of arbitrary inflated size), read with buffers of an arbitrary size: however the reads go, the bytes
 // delivered in total never exceed the 10 MB limit. (Black box: no field of the reader is touched.)
